@@ -75,6 +75,10 @@
 //@|        listener matches Some(l) ==> r.1.serial_task().states() == l.log(),
 //@|        listener is None ==> r.1.serial_task().states().len() == 0,
 //@closure 0| || -> (l: Box<dyn crate::client::listener::Listener<crate::client::listener::PortState>>) ensures l.log().len() == 0
+// [C18,C20] the spawning variant hands the runtime the task built from exactly the arguments
+//@fn rodbus/src/client/channel.rs | Channel::spawn_rtu | tags=C13,C18,C20
+//@|    requires listener matches Some(l) ==> l.log().len() == 0,
+//@exit 0| assert(!task.is_tcp_task() && task.serial_task().client_loop.decode == decode && task.serial_task().client_loop.rx.0.chan == handle.tx.chan);
 //@fn rodbus/src/client/channel.rs | Channel::enable | tags=C13 | r10
 //@|    ensures r is Ok ==> self.tx.delivered(Command::Setting(Setting::Enable)),
 //@entry| broadcast use axiom_queue_inv_intro;
